@@ -135,7 +135,8 @@ func propC11Sequential(t *rapid.T) {
 		{uint64(n), uint64(m), tick, th, map[c11Key]*c11Window{}},
 		{uint64(n), uint64(m), tick, th, map[c11Key]*c11Window{}},
 	}
-	now := rapid.Int64Range(0, 5).Draw(t, "t0")
+	clock := rapid.Int64Range(0, 5).Draw(t, "t0")
+	straggler := false
 	cnt := rapid.IntRange(1, 60).Draw(t, "entries")
 	boundary, dropped, thereafterAdmit, collided := false, false, false, false
 	usedMsgs := map[uint32]map[string]bool{}
@@ -144,7 +145,14 @@ func propC11Sequential(t *rapid.T) {
 		if dt < 0 {
 			dt = 0
 		}
-		now += dt
+		clock += dt
+		// entries may carry stamps that lag behind the clock (delivered late, stamped on another host): windows only
+		// ever move forward, so a straggler counts in the window that is open for its key
+		now := clock
+		if late := rapid.SampledFrom([]int64{0, 0, 0, 0, 0, 1, tick / 2, tick, tick + 1, 3*tick + 1}).Draw(t, "stampLag"); late > 0 && now-late >= 0 {
+			now -= late
+			straggler = true
+		}
 		lvl := zapcore.Level(rapid.SampledFrom([]int8{-2, -1, 0, 0, 1, 2, 5, 6, 100, 0, 0}).Draw(t, "level"))
 		msg := rapid.SampledFrom(c11Messages).Draw(t, "msg")
 		which := 0
@@ -219,6 +227,9 @@ func propC11Sequential(t *rapid.T) {
 	}
 	if thereafterAdmit {
 		labels = append(labels, "thereafter admission")
+	}
+	if straggler {
+		labels = append(labels, "entries stamped earlier than their predecessors")
 	}
 	if collided {
 		labels = append(labels, "hash-colliding messages share a budget")
